@@ -20,7 +20,8 @@
                (file: xmpp_conn_set_cafile(test root); path: xmpp_conn_set_capath(hashed dir);
                env: nothing set, SSL_CERT_FILE names the test root (default store); other: cafile
                holding a different root; missing: cafile that does not exist)
-        srv    ok | close (half-close on ClientHello) | garbage (answers the ClientHello with text)
+        srv    ok | close (half-close on ClientHello) | garbage (answers the ClientHello with text) |
+               mute (never answers the ClientHello; the harness half-closes after 300 idle select calls)
         LEAF   ISS;NB;NA;CN;SANS   ISS = root | inter | interx (intermediate not sent) | unk (unknown
                root, not sent) | unkc (unknown root, sent) | self;  NB/NA = validity start/end in
                days relative to now;  CN = hex or -;  SANS = - or comma list of d:HEX (dNSName),
@@ -75,6 +76,8 @@
 
 static int tls_active = 0;
 static FILE *t_out;
+static xmpp_conn_t *e_conn;
+static int g_connect_calls, g_hs_done; /* SSL_connect calls / tls_start finished, current case */
 
 /* ------------------------------------------------------------------------------------------ */
 /* growing byte buffer */
@@ -249,7 +252,7 @@ static int zoo_init(void)
 enum { P_STARTTLS, P_LEGACY, P_DIRECT };
 enum { CB_NONE, CB_ACC, CB_REJ, CB_K, CB_R, CB_V };
 enum { CA_NONE, CA_FILE, CA_PATH, CA_ENV, CA_OTHER, CA_MISSING };
-enum { SRV_OK, SRV_CLOSE, SRV_GARBAGE };
+enum { SRV_OK, SRV_CLOSE, SRV_GARBAGE, SRV_MUTE };
 
 static struct {
     int set;
@@ -535,8 +538,9 @@ static int srv_step(void)
         k = recv(srv.sfd, buf, sizeof(buf), 0);
         if (cfg.srv == SRV_CLOSE)
             shutdown(srv.sfd, SHUT_WR);
-        else
+        else if (cfg.srv == SRV_GARBAGE)
             srv_send_plain("HTTP/1.1 400 Bad Request\r\n\r\n");
+        /* SRV_MUTE: never answers */
         srv.accept_result = -1;
         srv.state = S_RAW;
         return 1;
@@ -753,6 +757,7 @@ void __wrap_freeaddrinfo(struct addrinfo *ai)
 
 int __real_select(int nfds, fd_set *r, fd_set *w, fd_set *e, struct timeval *tv);
 static long idle_spins;
+static long select_calls_at_start;
 
 static int tls_select(int nfds, fd_set *r, fd_set *w, fd_set *e, struct timeval *tv)
 {
@@ -765,8 +770,13 @@ static int tls_select(int nfds, fd_set *r, fd_set *w, fd_set *e, struct timeval 
     if (rc == 0 && srv.progress == p0) {
         if (++idle_spins > 300 && srv.sfd >= 0 && srv.state != S_EOF) {
             /* the client waits for something the server will never send: break the wait */
-            fprintf(t_out, "ORACLE-FAIL stall\n");
-            shutdown(srv.sfd, SHUT_RDWR);
+            if (cfg.srv == SRV_MUTE && g_connect_calls > 0 && !g_hs_done)
+                fprintf(t_out, "info tls_start still waiting after %ld select() calls and %d SSL_connect() calls; "
+                               "no time-out of its own, the harness half-closes the socket\n",
+                        hselect_calls - select_calls_at_start, g_connect_calls);
+            else
+                fprintf(t_out, "ORACLE-FAIL stall\n");
+            shutdown(srv.sfd, SHUT_WR);
             idle_spins = 0;
         }
     } else
@@ -892,6 +902,7 @@ int __wrap_SSL_connect(SSL *ssl)
         SSL_set_verify(ssl, ob.vmode, rec_cb);
     }
     ob.connect_calls++;
+    g_connect_calls++;
     r = __real_SSL_connect(ssl);
     ob.last_connect_ret = r;
     ob.last_connect_err = r <= 0 ? SSL_get_error(ssl, r) : 0;
@@ -914,6 +925,7 @@ int __wrap_tls_start(tls_t *tls)
 {
     int r = __real_tls_start(tls);
     if (tls_active) {
+        g_hs_done = 1;
         ob.hs_done = 1;
         ob.hs_ret = r;
         ob.hs_err = ob.last_connect_err;
@@ -931,6 +943,10 @@ static int user_handler(const xmpp_tlscert_t *cert, const char *const errormsg)
     const char *subj = xmpp_tlscert_get_string(cert, XMPP_CERT_SUBJECT);
     if (!ob.in_cb)
         fprintf(t_out, "ORACLE-FAIL handler-outside-verify\n");
+    if (idx == 0 && xmpp_tlscert_get_conn(cert) != e_conn)
+        fprintf(t_out, "info certfail handler: xmpp_tlscert_get_conn(cert) = %s, xmpp_tlscert_get_userdata(cert) = %s\n",
+                xmpp_tlscert_get_conn(cert) ? "another connection" : "NULL",
+                xmpp_tlscert_get_userdata(cert) ? "set" : "NULL");
     if (!errormsg || strcmp(errormsg, want) != 0)
         fprintf(t_out, "ORACLE-FAIL errstr depth=%d err=%d got=%s\n", ob.cur_depth, ob.cur_err,
                 errormsg ? errormsg : "(null)");
@@ -1016,6 +1032,7 @@ static void teardown(void)
     e_events[0] = 0;
     e_raw_seen = 0;
     idle_spins = 0;
+    g_connect_calls = g_hs_done = 0;
     ERR_clear_error();
 }
 
@@ -1117,7 +1134,11 @@ static int do_cfg(char **tok, int n)
             if (cfg.ca < 0)
                 return -1;
         } else if (parse_kv(tok[i], "srv", &v)) {
-            cfg.srv = !strcmp(v, "ok") ? SRV_OK : !strcmp(v, "close") ? SRV_CLOSE : !strcmp(v, "garbage") ? SRV_GARBAGE : -1;
+            cfg.srv = !strcmp(v, "ok")        ? SRV_OK
+                      : !strcmp(v, "close")   ? SRV_CLOSE
+                      : !strcmp(v, "garbage") ? SRV_GARBAGE
+                      : !strcmp(v, "mute")    ? SRV_MUTE
+                                              : -1;
             if (cfg.srv < 0)
                 return -1;
         } else if (parse_kv(tok[i], "leaf", &v))
@@ -1185,6 +1206,7 @@ static void do_start(void)
         break;
     }
     expect_socket = 1;
+    select_calls_at_start = hselect_calls;
     if (cfg.path == P_DIRECT)
         rc = xmpp_connect_raw(e_conn, "127.0.0.1", 5222, conn_handler, NULL);
     else
